@@ -1091,6 +1091,11 @@ mod range_number_impl {
                 impl RangeNumber for $num_type {
                     const TYPE: RangeType = RangeType::$range_type;
 
+                    #[cfg_attr(kani, kani::ensures(|r: &Option<Bound<Self>>| match r {
+                        Some(Bound::Included(e)) => self != <$num_type>::MIN && *e == self - 1,
+                        None => self == <$num_type>::MIN,
+                        _ => false,
+                    }))]
                     fn range_end_bound(self) -> Option<Bound<Self>> {
                         self.checked_sub(1).map(Bound::Included)
                     }
@@ -1119,6 +1124,10 @@ mod range_number_impl {
                 impl RangeNumber for $num_type {
                     const TYPE: RangeType = RangeType::$range_type;
 
+                    #[cfg_attr(kani, kani::ensures(|r: &Option<Bound<Self>>| match r {
+                        Some(Bound::Excluded(e)) => e.to_bits() == self.to_bits(),
+                        _ => false,
+                    }))]
                     fn range_end_bound(self) -> Option<Bound<Self>> {
                         Some(Bound::Excluded(self))
                     }
@@ -1252,3 +1261,7 @@ mod tests {
         assert_eq!(range, Range::Fallback);
     }
 }
+
+#[cfg(kani)]
+#[path = "/verif/kani/ranges.rs"]
+mod verif_kani;
